@@ -48,7 +48,9 @@ def _fields(line, keys):
         base, _, sub = k.partition(":")
         if base not in kv: continue
         v = kv[base]
-        if sub and v != "-":
+        if sub == "libpanic":      # only: did the library itself panic?
+            v = "1" if v == "panic:other" else "0"
+        elif sub and v != "-":
             if sub in ("opened", "closed"):
                 keep = [e for e in v.split(";") if e.startswith(sub + "@")]
             else:
@@ -152,9 +154,10 @@ PROPS["C14"] = {
 }
 
 PROPS["C11"] = {
-    "components": [Sched("cfg", 4000, 150000), Sched("diag", 1500, 60000), Seq("consumers", 400, 20000, label="diag", crash_is_violation=True), RaceRun()],
+    "components": [Sched("cfg", 4000, 150000), Sched("diag", 1500, 60000), Seq("consumers", 400, 20000, label="diag", crash_is_violation=True), RaceRun(),
+                   CircuitSeq("C11", ["res:libpanic"], 1500, 60000)],
     "generated": ["lockfacts"],
-    "rule": "cfg: one Execute (success / failure / context-error outcome, live or cancelled caller context, closed or open circuit) races one SetConfigThreadSafe changing exactly one setting (run limit, timeout, fallback limit, ForceOpen, ForcedClosed, Disabled, Fallback.Disabled, IgnoreInterrupts; 23 old->new pairs); the observed outcome must equal the outcome under the old or under the new configuration; distinct by (configuration, schedule). diag (schedules): calls of every outcome kind on a circuit whose collectors and interrupt classifier use Config/IsOpen/Name/gauges from inside their callbacks, racing SetConfigThreadSafe / Var / OpenCircuit+CloseCircuit; monitored: no deadlock. diag (consumers suite): diagnostics after partial SetConfigThreadSafe. racerun: control plane + diagnostics vs traffic under the Go race detector.",
+    "rule": "cfg: one Execute (success / failure / context-error outcome, live or cancelled caller context, closed or open circuit) races one SetConfigThreadSafe changing exactly one setting (run limit, timeout, fallback limit, ForceOpen, ForcedClosed, Disabled, Fallback.Disabled, IgnoreInterrupts; 23 old->new pairs); the observed outcome must equal the outcome under the old or under the new configuration; distinct by (configuration, schedule). diag (schedules): calls of every outcome kind on a circuit whose collectors and interrupt classifier use Config/IsOpen/Name/gauges from inside their callbacks, racing SetConfigThreadSafe / Var / OpenCircuit+CloseCircuit; monitored: no deadlock. diag (consumers suite): diagnostics after partial SetConfigThreadSafe. circuit suite (sequential histories with partial live reconfigurations and every outcome kind): no call may end in a panic that the run function / fallback did not raise. racerun: control plane + diagnostics vs traffic under the Go race detector.",
     "trusted_base": TB_COMMON + TB_SCHED,
     "assumptions": ["partial by nature: the Go memory model, fairness and network-facing diagnostics are outside the model"],
 }
